@@ -429,7 +429,7 @@ def run(tier):
                 rp.cov["notes"].append("stale known finding (witness passes now): " + k["key"])
 
     # ---- barrier-released single-record rounds: totals after quiescence
-    total_rounds = 10 ** 4 if quick else 10 ** 6
+    total_rounds = 4 * 10 ** 4 if quick else 10 ** 6
     plan = [(2, total_rounds // 2), (min(4, nc), total_rounds // 4), (max(2, nc // 2), total_rounds // 8), (nc, total_rounds // 16), (4 * nc, max(200, total_rounds // 100))]
     rounds_done, rounds_samples = 0, []
     for n, r in plan:
@@ -453,7 +453,7 @@ def run(tier):
 
     # ---- goroutine mixes under the race detector: every result = the sequential answer, no race report
     inputs = workload(rng, tier)
-    k = 150 if quick else 1500
+    k = 400 if quick else 20000
     mixes = []
     seen = set()
     race_files = {w.split(":")[0] for h in race_hits.values() for w in h["where"][:2]}
